@@ -262,7 +262,7 @@ func runChild(kind, spec string, timeout time.Duration) {
 		}
 		done <- "OK"
 	}()
-	if strings.HasPrefix(name, "witness/") && !strings.HasPrefix(name, "witness/race-") {
+	if strings.HasPrefix(name, "witness/") && !strings.HasPrefix(name, "witness/race-") && !strings.HasPrefix(name, "witness/refresh-") {
 		timeout = 2 * time.Second // a deadlock witness is expected to hang
 	}
 	// A watchdog expiry is a deadlock only if nothing of the case can run any more: as long as one of its
